@@ -110,6 +110,15 @@ impl World {
                     }
                 }
             }
+            O::MoveSlot => {
+                if let Some(h) = self.resolve_root(a[0], |m, o| live_node(m, o) && m.objs[o as usize].nslots > 0) {
+                    let _busy = self.busy(h);
+                    if let Some(t) = self.resolve_root(a[2], any) {
+                        let (cc, o) = self.take_root(t);
+                        self.set_slot_of_root(h, a[1], cc, o);
+                    }
+                }
+            }
             O::ClearSlot => {
                 if let Some(h) = self.resolve_root(a[0], |m, o| live_node(m, o) && m.objs[o as usize].nslots > 0) {
                     self.clear_slot_of_root(h, a[1]);
